@@ -581,7 +581,7 @@ theorem plm_pos (cfg : Config) (s : FState α) (cmd : Cmd α) (ep fr fz : Option
         · simp only [hd, Bool.false_eq_true, if_false]; exact hp2
   · have hm' : T.isMoveOf fz xy = false := by simpa using hm
     simp only [hm', Bool.not_false, if_true]
-    rw [processNonMove_frame s1 cmd dE hs1]
+    rw [nonMoveBody_fst, processNonMove_frame s1 cmd dE hs1]
     simp only [hp1, movedPos]
     unfold T.isMoveOf at hm'
     simp only [Bool.or_eq_false_iff, List.any_eq_false] at hm'
